@@ -14,10 +14,10 @@ var techniques = map[string]string{
 	"C02": "custom static analysis: path-tracking discipline at navigation sites (control dependence), bytecode verifier for hand-compiled = and |=, SSA ownership/capacity-leak analysis of update helpers",
 	"C03": "custom static analysis: builtin.go literal evaluated and compared token-wise with builtin.jq + grammar-derived canonical form; numeric-representation exhaustiveness and single-normalisation-point lints over type switches",
 	"C04": "custom static analysis: rule-by-rule audit of the optimiser (rewrite rules extracted from source, checked against per-opcode stack effects extracted from the VM)",
-	"C05": "custom SSA ownership analysis of every write into []any / map[string]any (greatest fixpoint, guard-sensitive), map-range order-insensitivity shapes",
+	"C05": "custom SSA ownership analysis of every write into []any / map[string]any (greatest fixpoint, guard-sensitive), allocator-registration and *big.Int receiver freshness, map-range order-insensitivity shapes",
 	"C06": "custom SSA/call-graph effect analysis: no store rooted at package globals, *Code, code, AST or compiler state reachable from a run; ownership analysis shared with C05",
 	"C07": "custom CFG/AST analysis of (*env).Next: context poll on every instruction-fetch cycle, terminal cancellation/exhaustion typestate, stack-neutral error exits",
-	"C08": "custom static analysis: enum exhaustiveness, panic-site census with call-graph reachability, type-assertion discharge, grammar semantic-value typing, optional-method dispatch chains",
+	"C08": "custom static analysis: enum exhaustiveness, panic-site census with call-graph reachability, type-assertion discharge, grammar semantic-value typing, optional-method dispatch chains, range-over-func yield protocol (CFG), parallel-slice length relations discharged at call sites",
 	"C09": "custom static analysis: parser.go.y precedence/associativity audit, goyacc regeneration compared as Go AST with parser.go, lexer↔grammar↔printer operator text agreement, printer field coverage, in-band EOF sentinel lint",
 	"C10": "custom static analysis: overflow-guard presence on int fast paths (CFG), integer cells never routed through float64, UseNumber typestate on every JSON decoder, verbatim number plumbing in both encoders",
 	"C11": "custom static analysis: single comparison function (call graph + interface-equality census), stable sort API, native string order for keys, typeIndex constants",
